@@ -148,10 +148,15 @@ def r3(ctx, fs):
     f = fs.fn('ratio::constructor::invoke')
     env = LocalEnv(f)
     env.param_roles(['itm', 'exprs'])
+    env.local_role('ctx', lambda n, i: (n.get('t') or '') == 'ratio::context')
+    fl = [n for n in f.nodes() if n.get('k') == 'CXXForRangeStmt' and 'get_fields' in show(canon(n['slots']['range'], env, subst=False)) and len(n['slots']['var'].get('bindings') or ()) == 2]
+    if len(fl) != 1:
+        raise AnalysisBroken('%s: the loop over the fields of the class (default initialisation) was not found' % f.id)
+    fname = fl[0]['slots']['var']['bindings'][0]
     g = cfg.Graph(f)
     sup = g.events(lambda t: t.get('callee_name') == 'ratio::constructor::invoke')
     asg = g.events(lambda t: t.get('k') == 'CXXMemberCallExpr' and (t.get('callee_name') or '').endswith('::emplace') and 'init_list' in show(canon(t, env, subst=False)) and '(. itm exprs)' in show(canon(t, env, subst=False)))
-    dfl = g.events(lambda t: t.get('k') == 'CXXMemberCallExpr' and (t.get('callee_name') or '').endswith('::emplace') and '(. itm exprs)' in show(canon(t, env, subst=False)) and 'f_name' in show(canon(t, env, subst=False)))
+    dfl = g.events(lambda t: t.get('k') == 'CXXMemberCallExpr' and (t.get('callee_name') or '').endswith('::emplace') and '(. itm exprs)' in show(canon(t, env, subst=False)) and any(x is t for x in walk(fl[0]['slots']['body'])) and canon(t, env, subst=False)[3] == fname)
     body = g.events(lambda t: (t.get('callee_name') or '').endswith('statement::execute'))
     facts = {
         'supertype constructors before the assignment list': bool(sup and asg) and g.never_after(asg, sup),
